@@ -86,6 +86,20 @@ Proof.
 Qed.
 Print Assumptions c01_wild_discovery_refeed_witness.
 
+(* Witness 4: the configured LIB has an EMPTY id: (id "", num 5); block 1 has an empty parent id *)
+Definition el_cfg : config := mkCfg 0 false false 0 true (mkFilter true true true true) None.
+Definition el_r0 : ref := mkR 0 5.
+Definition el_hist : list block := [ mkBlock 1 6 0 5; mkBlock 1 6 0 5; mkBlock 2 7 1 5; mkBlock 1 6 0 5; mkBlock 3 8 2 5 ].
+
+Example c01_empty_lib_id_trace :
+  wl_show (fk_run el_cfg (fs_init (LExcl el_r0)) el_hist) =
+    [ ([(SNew, 1)], ROk); ([(SNew, 1)], ROk); ([(SNew, 2)], ROk); ([(SNew, 1)], ROk); ([(SNew, 2); (SNew, 3)], ROk) ].
+Proof. vm_compute. reflexivity. Qed.
+
+Theorem c01_empty_lib_id_witness : c01_empty_lib_id_refuted.
+Proof. exists el_cfg, el_r0, el_hist. vm_compute. repeat split; reflexivity. Qed.
+Print Assumptions c01_empty_lib_id_witness.
+
 (* ================================================================ what holds for arbitrary declarations *)
 
 (* partial (two of the three clauses of c01_statement, for EVERY well-formed history and every configured LIB
@@ -132,6 +146,11 @@ Example c01_wild_witnesses_in_discipline_class :
   wf_b wl_hist = true /\ ri wl_r0 <> 0 /\ lib_mono_b (cfg_nofail wl_cfg) (fs_init (LExcl wl_r0)) wl_hist = false /\
   wf_b il_hist = true /\ ri il_r0 <> 0 /\ lib_mono_b (cfg_nofail il_cfg) (fs_init (LExcl il_r0)) il_hist = false.
 Proof. vm_compute. repeat split; try reflexivity; discriminate. Qed.
+
+(* the class of c01_discovery_roots_partial is a sub-class of the class of c01_wild_discovery_mono_partial *)
+Theorem c01_wild_discovery_mono_subsumes_roots : c01_wild_discovery_mono_subsumes.
+Proof. exact c01_wild_discovery_mono_subsumes_proved. Qed.
+Print Assumptions c01_wild_discovery_mono_subsumes_roots.
 
 (* discovery mode (no configured LIB, hold-until-LIB): the same two theorems.  Proofs/Fk/WildLibDisc.v *)
 Theorem c01_wild_discovery_discipline_partial : c01_wild_discovery_discipline_statement.
